@@ -145,8 +145,39 @@ func framesSeeds() [][]byte {
 	return out
 }
 
-func requestSeeds() [][]byte {
+// keyClasses: Sec-WebSocket-Key values of exactly 24 characters, one per class.
+var keyClasses = []struct{ name, key string }{
+	{"valid base64 of 16 bytes", validKey},
+	{"16 zero bytes", "AAAAAAAAAAAAAAAAAAAAAA=="},
+	{"base64 alphabet, no padding (decodes to 18 bytes)", "AAAAAAAAAAAAAAAAAAAAAAAA"},
+	{"no padding, mixed alphabet", "dGhlIHNhbXBsZSBub25jZQ+/"},
+	{"one = (decodes to 17 bytes)", "dGhlIHNhbXBsZSBub25jZQA="},
+	{"three =", "dGhlIHNhbXBsZSBub25jZ==="},
+	{"four =", "dGhlIHNhbXBsZSBub25j===="},
+	{"all =", "========================"},
+	{"non-alphabet bytes", "dGhlIHNhbXBsZSBub25jZ!=="},
+	{"non-alphabet, no padding", "!!!!!!!!!!!!!!!!!!!!!!!!"},
+	{"high bytes", "\xff\xfe\x80\x81AAAAAAAAAAAAAAAAAA=="},
+	{"= in the middle", "dGhlIHNhbXBs=SBub25jZQ=="},
+	{"= at the front", "=GhlIHNhbXBsZSBub25jZQ=="},
+	{"url-safe alphabet", "dGhlIHNhbXBsZSBub25jZ-_="},
+	{"blank inside", "dGhlIHNhbXBsZ Bub25jZQ=="},
+	{"non-canonical trailing bits", "dGhlIHNhbXBsZSBub25jZR=="},
+}
+
+// keySeeds: a compliant request with each key class, through the raw upgrader,
+// the debug wrapper and the net/http upgrader.
+func keySeeds() [][]byte {
 	var out [][]byte
+	for _, kc := range keyClasses {
+		req := strings.Replace(requestSeedsText[0], validKey, kc.key, 1)
+		out = append(out, cat([]byte{0x02, 0, 0}, []byte(req)), cat([]byte{0x02, 0, 0x10}, []byte(req)), cat([]byte{0x03, 0, 0}, []byte(req)))
+	}
+	return out
+}
+
+func requestSeeds() [][]byte {
+	out := keySeeds()
 	for i, s := range requestSeedsText {
 		for _, ctl := range [][]byte{{0x00, 0, 0}, {0x02, 0, 1}, {0x04, 3, 15}, {0x06, 0, 0}, {0x01, 0, 0}, {0x05, 7, 5}} {
 			if i > 0 && ctl[0] == 0x06 {
@@ -404,6 +435,16 @@ func TestWriteSeedFiles(t *testing.T) {
 				t.Fatal(err)
 			}
 			n++
+		}
+		if ft.name == "FuzzRequest" {
+			for i, kc := range keyClasses {
+				req := strings.Replace(requestSeedsText[0], validKey, kc.key, 1)
+				body := "go test fuzz v1\n[]byte(" + strconv.Quote(string(cat([]byte{0x02, 0, 0}, []byte(req)))) + ")\n"
+				if err := os.WriteFile(filepath.Join(dir, fmt.Sprintf("key-%02d", i)), []byte(body), 0o644); err != nil {
+					t.Fatal(err)
+				}
+				n++
+			}
 		}
 		t.Logf("%s: %d files", ft.name, n)
 	}
